@@ -97,7 +97,7 @@ def job_solver(job):
                 sg = tad.StochasticGame(prune_states=prune, **desc)
                 sg.check_game()
                 state_list = sg.init_states()
-                solver = tad.Solver(threshold=10 ** (-6), state_list=state_list)
+                solver = tad.Solver(threshold=10 ** (-int(op.get("digits", 6))), state_list=state_list)
                 rs, _n = solver.solve_reachability(sg.transition_list, sg.final_states, prune)
                 emit({"e": "ReachDone",
                       "prob": obs.nums([s.reach_probability for s in state_list]),
